@@ -762,6 +762,32 @@ pub fn structural(r: &mut Rng, parts: &Parts, fmt: Fmt, key: KeyId, kb_key: Opti
                     variants.push((format!("kb payload {} of another type", k), h.clone(), p2));
                 }
             }
+            // the right JSON type but another length: shorter, empty, longer than the genuine text (a digest is 43 characters)
+            for k in ["nonce", "aud", "sd_hash"] {
+                if let Some(t) = pl.get(k).and_then(Value::as_str) {
+                    let mut forms: Vec<String> = vec![
+                        String::new(),
+                        t.chars().take(t.chars().count() / 2).collect(),
+                        t.chars().take(t.chars().count().saturating_sub(1)).collect(),
+                        format!("{}A", t),
+                        format!("{}=", t),
+                        format!("{}{}", t, t),
+                        t.bytes().map(|b| format!("{:02x}", b)).collect(),
+                        format!("{}\u{00e9}", t),
+                        "x".repeat(4096),
+                    ];
+                    if !every {
+                        let keep = r.below(forms.len());
+                        let longer = 3 + r.below(4);
+                        forms = vec![forms[keep].clone(), forms[longer].clone()];
+                    }
+                    for f in forms {
+                        let mut p2 = pl.clone();
+                        p2[k] = json!(f);
+                        variants.push((format!("kb payload {} of another length", k), h.clone(), p2));
+                    }
+                }
+            }
             for k in ["alg", "typ"] {
                 let mut h2 = h.clone();
                 h2.as_object_mut().map(|m| m.remove(k));
